@@ -36,6 +36,7 @@ func runC07(c *Ctx) {
 	R.Rule("C07.R2", "fall-through between rule scopes: when the element-scope rules for an attribute (resp. style property) are exhausted or absent, control reaches the global-scope lookup for the same key")
 	R.Rule("C07.R3", "kept tokens are written verbatim: the only field of the token ever modified before Token.String() is Attr, which receives sanitizeAttrs' result; sanitizeAttrs and sanitizeStyles only append in iteration order (no sorting/reordering calls)")
 	R.Rule("C07.R4", "rule-source completeness: the rules applied to an element incorporate every table that can hold a rule for it — the explicit entry and all matching element patterns — for attributes (sanitize → sanitizeAttrs) and for styles (sanitizeStyles)")
+	R.Rule("C07.R6", "matchers and stored rules agree in letter case: style values are lower-cased before matching, so MatchingEnum entries are compared case-insensitively (or lower-cased on registration) — otherwise a conforming value listed with an upper-case letter is dropped")
 	R.Rule("C07.R5", "rule tables are append-only (decided by C17.R2, referenced)")
 	R.Assume(TrustGo, "byte-for-byte identity of the serialisation (attribute quoting, entity forms) is x/net/html's Token.String against 'canonical serialisation' and is NOT decided")
 	F := model.FindFields(c.P)
@@ -95,6 +96,7 @@ func runC07(c *Ctx) {
 	c07FallThrough(c, F)
 	c07Verbatim(c, F)
 	c07Completeness(c, F)
+	enumCaseRule(c, "C07.R6")
 	R.OK("C07.R5", "ref", "rule tables are append-only", "", "decided by C17.R2")
 }
 
